@@ -54,7 +54,58 @@ func naturalLoops(f *ssa.Function) []*Loop {
 // irreducibleOrOther reports cycles that are not natural loops (none expected in Go-generated SSA
 // without goto into loops); callers treat them as undecided.
 
-// atomicLoadAddr returns the address operand when v is (a conversion of) a sync/atomic Load call.
+// atomicLoadPath describes the word read when v is (a conversion of) a sync/atomic Load, directly or through a
+// small accessor function whose body is just such a load of a word reachable from one of its parameters
+// (e.g. a currentTable() helper). ok=false otherwise.
+func atomicLoadPath(v ssa.Value) (core.AddrPath, bool) {
+	v = core.StripConv(v)
+	c, ok := v.(*ssa.Call)
+	if !ok {
+		return core.AddrPath{}, false
+	}
+	if op, addr, ok := core.AtomicOp(c); ok {
+		if op != "Load" {
+			return core.AddrPath{}, false
+		}
+		return core.Addr(addr), true
+	}
+	cal := core.Callee(c)
+	if cal == nil || cal.Blocks == nil || len(cal.Blocks) != 1 {
+		return core.AddrPath{}, false
+	}
+	var ret *ssa.Return
+	for _, in := range cal.Blocks[0].Instrs {
+		if r, isRet := in.(*ssa.Return); isRet {
+			ret = r
+		}
+	}
+	if ret == nil || len(ret.Results) != 1 {
+		return core.AddrPath{}, false
+	}
+	inner, ok := atomicLoadPath(ret.Results[0])
+	if !ok {
+		return core.AddrPath{}, false
+	}
+	p, isP := inner.Root.(*ssa.Parameter)
+	if !isP {
+		return core.AddrPath{}, false
+	}
+	for i, q := range cal.Params {
+		if q == p && i < len(c.Call.Args) {
+			outer := core.Addr(c.Call.Args[i])
+			res := inner
+			res.Root = outer.Root
+			if outer.Root == nil {
+				res.Root = c.Call.Args[i]
+			}
+			res.Steps = append(append([]string{}, outer.Steps...), inner.Steps...)
+			return res, true
+		}
+	}
+	return core.AddrPath{}, false
+}
+
+// atomicLoadAddr returns the address operand when v is (a conversion of) a direct sync/atomic Load call.
 func atomicLoadAddr(v ssa.Value) (ssa.Value, bool) {
 	v = core.StripConv(v)
 	c, ok := v.(*ssa.Call)
